@@ -2,6 +2,7 @@
 
 #include "NameCollector.h"
 
+#include <limits>
 #include <stack>
 #include <optional>
 
@@ -251,17 +252,25 @@ bool ASTInterpreter::ViArithmetic(Cursor iter) {
   if (!val2.has_value()) {
     return false;
   }
-  const auto op1 = std::get<StructuredData>(val1.value()).E().Value();
-  const auto op2 = std::get<StructuredData>(val2.value()).E().Value();
+  const int64_t op1 = std::get<StructuredData>(val1.value()).E().Value();
+  const int64_t op2 = std::get<StructuredData>(val2.value()).E().Value();
+  int64_t result{ 0 };
   switch (iter->id) {
   default:
-  case TokenID::PLUS:
-    return SetCurrent(Factory::Val(op1 + op2));
-  case TokenID::MINUS:
-    return SetCurrent(Factory::Val(op1 - op2));
-  case TokenID::MULTIPLY:
-    return SetCurrent(Factory::Val(op1 * op2));
+  case TokenID::PLUS: result = op1 + op2; break;
+  case TokenID::MINUS: result = op1 - op2; break;
+  case TokenID::MULTIPLY: result = op1 * op2; break;
   }
+  using Limits = std::numeric_limits<object::DataID>;
+  if (result < Limits::min() || result > Limits::max()) {
+    OnError(
+      ValueEID::typedOverflow,
+      iter->pos.start,
+      std::to_string(Limits::max())
+    );
+    return false;
+  }
+  return SetCurrent(Factory::Val(static_cast<object::DataID>(result)));
 }
 
 bool ASTInterpreter::ViCard(Cursor iter) {
